@@ -140,6 +140,17 @@ func (r *fakeRepo) FetchRevision(ctx context.Context, projectPath string, revisi
 	if err := os.MkdirAll(dir, 0o700); err != nil {
 		return err
 	}
+	// now and then the project also still carries its legacy .dawnconfig with other (stale) requirements: dawn.toml wins
+	if (len(uv.rev)+len(uv.Path)+len(uv.Reqs))%5 == 0 {
+		stale := map[string]project.RequirementConfig{}
+		for n, rq := range reqs {
+			if len(stale) < len(reqs)-1 {
+				stale[n] = rq
+			}
+		}
+		stale["gone"] = project.RequirementConfig{Path: "github.com/org/r0/never-existed", Version: "v1.0.0"}
+		project.WriteConfigFile(filepath.Join(dir, ".dawnconfig"), &project.Config{Name: uv.Name, Version: uv.Version, Requirements: stale})
+	}
 	return project.WriteConfigFile(filepath.Join(dir, "dawn.toml"), &project.Config{Name: uv.Name, Version: uv.Version, Requirements: reqs})
 }
 
@@ -543,6 +554,19 @@ func (u *universe) genQuery(r *rand.Rand, bl map[string]string) qspec {
 		q.text = p + "@latest"
 	case "bare":
 		q.text = p
+		if _, major := project.SplitPathVersion(p); major == "" && r.IntN(2) == 0 {
+			// a v0/v1 project asked for by its major line: "path@v1" / "path@v0" are latest queries on the unsuffixed path
+			mj := "v1"
+			for _, x := range vs {
+				if semver.Major(x.Version) == "v0" {
+					mj = "v0"
+				}
+			}
+			if r.IntN(2) == 0 {
+				mj = semver.Major(v)
+			}
+			q.text = p + "@" + mj
+		}
 	case "upgrade":
 		q.text = p + "@upgrade"
 	case "patch":
